@@ -41,6 +41,46 @@ Definition eSys (s : sys) : list Z :=
   eList (fun o => [eOut o]) (log s) ++ [-101] ++ eList eReq (enq s) ++
   [if present s then 1 else 0; Z.of_nat (retries s)].
 
+(* ---------- selector 3: CLI invocations against a scripted API server, then the controllers ---------- *)
+Definition dGout : dec gout :=
+  let* x := dZ in match x with 0 => ret GOk | 1 => ret GNotFound | 2 => ret GErr | _ => fail end.
+Definition dCout : dec cout :=
+  let* x := dZ in
+  match x with 0 => ret COk | 1 => ret CTimeoutPersisted | 2 => ret CTimeout | 3 => ret CServerTimeout
+             | 4 => ret C5xx | 5 => ret CAlreadyExists | 6 => ret CConflict | _ => fail end.
+Definition dInv : dec inv :=
+  let* v := dZ in let* ns := dZ in let* n := dZ in let* u := dZ in let* g := dGout in let* sc := dList dCout in
+  if (v <? 1) || (6 <? v) then fail else ret (mkInv v ns (mkTarget (verb_kind v) ns n u) g sc).
+Definition dE2E : dec (nat * list inv) := let* r := dNat in let* l := dList dInv in ret (r, l).
+
+Definition eReq4 (r : Z * Z * Z * Z) : list Z :=
+  let '(k, ns, n, a) := r in [k; ns; n; a].
+Definition dReq4 : dec (Z * Z * Z * Z) :=
+  let* k := dZ in let* ns := dZ in let* n := dZ in let* a := dZ in ret (k, ns, n, a).
+
+Fixpoint eInvs (l : list inv) (k : Z) : list Z :=
+  match l with
+  | [] => []
+  | i :: r => let x := cli_invoke i in
+              [-100 - k; if r_ok x then 1 else 0; Z.of_nat (r_gets x); Z.of_nat (r_posts x)] ++
+              eList eCmd (r_new x) ++ eInvs r (k + 1)
+  end.
+
+(* observed per invocation: ok, gets, posts, commands left behind *)
+Fixpoint dObsInv (n : nat) : dec (list (bool * nat * nat * list command)) :=
+  match n with
+  | O => ret []
+  | S k => let* _ := dZ in let* ok := dBool in let* g := dNat in let* p := dNat in let* cs := dList dCmd in
+           let* r := dObsInv k in ret ((ok, g, p, cs) :: r)
+  end.
+
+Fixpoint check_invs (l : list inv) (obs : list (bool * nat * nat * list command)) : bool :=
+  match l, obs with
+  | [], [] => true
+  | i :: l', (ok, g, p, cs) :: obs' => law_cli_invocation i ok g p cs && check_invs l' obs'
+  | _, _ => false
+  end.
+
 Definition entry (sel : Z) (toks : list Z) : list Z :=
   match sel with
   | 1 => match run_dec dCli toks with
@@ -53,6 +93,14 @@ Definition entry (sel : Z) (toks : list Z) : list Z :=
              | None => [-999998]               (* fuel exhausted *)
              end
          | None => bad_input end
+  | 3 => match run_dec dE2E toks with
+         | Some (_, invs) => eInvs invs 1 ++ [-99] ++ eList eReq4 (e2e_requests invs)
+         | None => bad_input end
+  | 103 => match run_dec (let* ri := dE2E in let* obs := dObsInv (length (snd ri)) in
+                          let* _ := dZ in let* rq := dList dReq4 in ret (snd ri, obs, rq)) toks with
+           | Some (invs, obs, rq) =>
+               eBool (check_invs invs obs && law_e2e (map (fun o => snd o) obs) rq)
+           | None => bad_input end
   | 101 => match run_dec (let* i := dCli in let* cs := dList dCmd in ret (i, cs)) toks with
            | Some ((v, ns, t), cs) => eBool (law_cli v ns t cs)
            | None => bad_input end
